@@ -27,6 +27,17 @@ impl std::fmt::Debug for Interval {
 }
 
 impl Interval {
+    /// Builds an interval from computed bounds, returning the `NaN` interval
+    /// if either bound is `NaN` (e.g. from `inf - inf` or `0 * inf`)
+    #[inline]
+    fn from_bounds(lower: f32, upper: f32) -> Self {
+        if lower.is_nan() || upper.is_nan() {
+            f32::NAN.into()
+        } else {
+            Interval::new(lower, upper)
+        }
+    }
+
     /// Builds a new interval
     ///
     /// There are two kinds of valid interval:
@@ -258,7 +269,7 @@ impl Interval {
     /// Returns the `NAN` interval if the input is invalid
     #[inline]
     pub fn asin(self) -> Self {
-        if self.lower < -1.0 || self.upper > 1.0 {
+        if self.has_nan() || self.lower < -1.0 || self.upper > 1.0 {
             f32::NAN.into()
         } else if self.lower() == self.upper() {
             self.lower.asin().into()
@@ -271,7 +282,7 @@ impl Interval {
     /// Returns the `NAN` interval if the input is invalid
     #[inline]
     pub fn acos(self) -> Self {
-        if self.lower < -1.0 || self.upper > 1.0 {
+        if self.has_nan() || self.lower < -1.0 || self.upper > 1.0 {
             f32::NAN.into()
         } else if self.lower() == self.upper() {
             self.lower.acos().into()
@@ -282,19 +293,19 @@ impl Interval {
     /// Computes the arctangent of the interval
     #[inline]
     pub fn atan(self) -> Self {
-        Interval::new(self.lower.atan(), self.upper.atan())
+        Interval::from_bounds(self.lower.atan(), self.upper.atan())
     }
     /// Computes the exponent function applied to the interval
     #[inline]
     pub fn exp(self) -> Self {
-        Interval::new(self.lower.exp(), self.upper.exp())
+        Interval::from_bounds(self.lower.exp(), self.upper.exp())
     }
     /// Computes the natural log of the input interval
     ///
     /// Returns the `NAN` interval if the input contains zero
     #[inline]
     pub fn ln(self) -> Self {
-        if self.lower <= 0.0 {
+        if self.has_nan() || self.lower <= 0.0 {
             f32::NAN.into()
         } else {
             Interval::new(self.lower.ln(), self.upper.ln())
@@ -651,7 +662,7 @@ impl std::ops::Add<Interval> for Interval {
     type Output = Self;
     #[inline]
     fn add(self, rhs: Self) -> Self {
-        Interval::new(self.lower + rhs.lower, self.upper + rhs.upper)
+        Interval::from_bounds(self.lower + rhs.lower, self.upper + rhs.upper)
     }
 }
 
@@ -688,9 +699,9 @@ impl std::ops::Mul<f32> for Interval {
         if self.has_nan() || rhs.is_nan() {
             f32::NAN.into()
         } else if rhs < 0.0 {
-            Interval::new(self.upper * rhs, self.lower * rhs)
+            Interval::from_bounds(self.upper * rhs, self.lower * rhs)
         } else {
-            Interval::new(self.lower * rhs, self.upper * rhs)
+            Interval::from_bounds(self.lower * rhs, self.upper * rhs)
         }
     }
 }
@@ -730,7 +741,7 @@ impl std::ops::Sub<Interval> for Interval {
 
     #[inline]
     fn sub(self, rhs: Self) -> Self {
-        Interval::new(self.lower - rhs.upper, self.upper - rhs.lower)
+        Interval::from_bounds(self.lower - rhs.upper, self.upper - rhs.lower)
     }
 }
 
